@@ -29,6 +29,19 @@ ASSUMPTIONS = [
 def run(ctx):
     vh = ctx.build_vh()
     if ctx.replay:
+        import json as _json
+        rp = _json.load(open(ctx.replay))["replay"]
+        if rp.get("kind") == "groupslast":      # the fixed family is run again; TLC judges; the shape of the replay file is reported
+            gp = ctx.path("groupslast.ndjson")
+            ctx.run_vh(vh, ["walker-groupslast"], stdout_path=gp)
+            grecs = common.read_ndjson(gp)
+            jr = ctx.tlc("Judge_GroupsLast", "Judge_GroupsLast", workers=1, env={"FILE": gp}, tag="groupslast", count=False)
+            gbad = set(jr.vecs["JUDGED"][0]["bad"])
+            for r in grecs:
+                if r["id"] in gbad and r["shape"] == rp["shape"] and r["elems"] == rp["elems"]:
+                    ctx.candidate(dict(src="groupslast", shape=r["shape"]), "replayed: clause classes %s, wanted %d field / %d group clauses, group clauses last; error %r" % (
+                        r["kinds"], r["wantf"], r["wantg"], r["err"][:300]), rp)
+            return ctx.finish("model_checking", dict(evaluations=1, distinct_nontrivial=0, samples=[rp], replay=True, traces_validated_against_impl=1))
         return fw.replay_saved(ctx, vh)
     quick = ctx.quick()
     ctx.spec_dir()      # the scratch copy of spec/ is made before any TLC run is started from a thread
@@ -62,6 +75,29 @@ def run(ctx):
     if ctx.cov["traces_recorded"] < 100 or probes < 100:
         raise MachineryError("trace recording too small: %d traces, %d probes" % (traces, probes))
 
+    # 4. "cross-field group clauses last": a fixed family of inputs in which field and group violations occur together
+    #    (one object, slices / arrays / maps of objects as root and as a field); TLC judges the recorded clause-class
+    #    sequences (Judge_GroupsLast: no field clause behind a group clause, none lost)
+    gp = ctx.path("groupslast.ndjson")
+    ctx.run_vh(vh, ["walker-groupslast"], stdout_path=gp)
+    grecs = common.read_ndjson(gp)
+    if len(grecs) < 500:
+        raise MachineryError("walker-groupslast produced only %d records" % len(grecs))
+    jr = ctx.tlc("Judge_GroupsLast", "Judge_GroupsLast", workers=1, env={"FILE": gp}, tag="groupslast", count=False)
+    judged = jr.vecs.get("JUDGED")
+    if not judged or judged[0]["n"] != len(grecs):
+        raise MachineryError("Judge_GroupsLast incomplete")
+    gbad = set(judged[0]["bad"])
+    shown = set()
+    for r in grecs:
+        if r["id"] in gbad and r["shape"] not in shown:
+            shown.add(r["shape"])
+            ctx.candidate(dict(src="groupslast", shape=r["shape"]),
+                          "group clauses are not last / clauses are missing: Struct on shape %s with elements %s (bit 0 either group violated, bit 1 field rule violated, bit 2 botheq group violated) "
+                          "returned clause classes %s, the input calls for %d field and %d group clauses, group clauses last; error: %r [%d such records]" % (
+                              r["shape"], r["elems"], r["kinds"], r["wantf"], r["wantg"], r["err"][:300], len(gbad)),
+                          dict(kind="groupslast", shape=r["shape"], elems=r["elems"]))
+
     sample_vec = next((v for v in vecs if any(len(e["seqs"][0]) >= 3 for e in v["exp"].values())), vecs[0])
     sample_res = [r for r in results if r["id"] == sample_vec["id"]][:2]
     cov = dict(
@@ -74,6 +110,7 @@ def run(ctx):
         exhaustive=True,
         samples=[dict(scenario=fw.brief(sample_vec["scn"]), expected=sample_vec["exp"], real=sample_res), psample],
         mc_distinct_states=[m.distinct for m in mcs],
+        groupslast_records=len(grecs), groupslast_with_both_kinds=sum(1 for r in grecs if r["wantg"] and r["wantf"]),
     )
     fw.summarise(ctx)
     return ctx.finish("model_checking", cov, ASSUMPTIONS)
